@@ -213,6 +213,10 @@ def do_crash(how, where):
         os.kill(os.getpid(), signal.SIGTERM)
     if how == 'sysexit':
         raise SystemExit(7)
+    if how == 'sysexit0':
+        raise SystemExit(0)
+    if how == 'kbint':
+        raise KeyboardInterrupt()
     os._exit(9)
 
 
@@ -607,7 +611,9 @@ def _make_method(ts):
             self.fail('expected to fail')
         if kind == 'subtests':
             for i, flavour in enumerate(ts.get('subs', ['F'])):
-                with self.subTest(i=i):
+                sub_args = (ts['submsg'],) if ts.get('submsg') else ()
+                with self.subTest(*sub_args, i=i,
+                                  **(ts.get('subkw') or {})):
                     emit('test.sub', id=tid, i=i, fl=flavour)
                     run_actions(ts.get('actions'), 'sub%d' % i, tid)
                     if flavour == 'F':
